@@ -95,8 +95,13 @@ func c15Run(c *Ctx, raw json.RawMessage) {
 	}
 	// (when the input ends within an unterminated string of the tag: any line of the tag)
 	if got < lc.Line || got > lc.Max {
-		c.Fail("wrong-line:"+sig, fmt.Sprintf("%q: error names line %d, the failing tag begins on line %d (ends on %d): %s", src, got, lc.Line, lc.Max, trunc(o.Err, 160)), cas)
-		return
+		if strings.HasPrefix(lc.Fault, "late_") {
+			// (the distance is part of the signature: the recorded finding is "the statement's own line", nothing else)
+			c.Fail(fmt.Sprintf("wrong-line%+d:%s", got-lc.Line, sig), fmt.Sprintf("%q: error names line %d, the failing tag begins on line %d: %s", src, got, lc.Line, trunc(o.Err, 160)), cas)
+		} else {
+			c.Fail("wrong-line:"+sig, fmt.Sprintf("%q: error names line %d, the failing tag begins on line %d (ends on %d): %s", src, got, lc.Line, lc.Max, trunc(o.Err, 160)), cas)
+			return
+		}
 	}
 	if lc.Wraps && !o.Wraps {
 		c.Fail("not-wrapped:"+sig, "error does not wrap the helper's error: "+o.Err, cas)
